@@ -113,6 +113,13 @@ def serialise(node, prefix='tal'):
         for n, v in node.get('static', [])]
     if node.get('interp_switch'):
         stat.append('meta:interpolation="%s"' % node['interp_switch'])
+    for key, attr in (('define_macro', 'define-macro'), ('use_macro', 'use-macro'), ('extend_macro', 'extend-macro'),
+                      ('fill_slot', 'fill-slot'), ('define_slot', 'define-slot')):
+        if node.get(key):
+            stat.append('metal:%s="%s"' % (attr, attr_escape(node[key])))
+    for key in ('translate', 'name', 'domain', 'context', 'target', 'attributes'):
+        if ('i18n_' + key) in node:
+            stat.append('i18n:%s="%s"' % (key, attr_escape(node['i18n_' + key])))
     present = [s for s in node.get('order', STATEMENTS) if s in node]
     present += [s for s in STATEMENTS if s in node and s not in present]
     dyn = ['%s:%s="%s"' % (prefix, TALNAME.get(s, s), attr_escape(statement_text(node, s)))
